@@ -41,7 +41,7 @@ type c16sub struct {
 func (o *c16obj) acked() int64 { return atomic.LoadInt64(&o.ackStamp) }
 
 func c16(c *wk.Ctx) {
-	c.Note("rule", "each plan hosts a fresh Probe service and runs a PRNG sequence, then 2-8 concurrent goroutines, of: Service.Add (new object), call work(token) through a proxy, SubscribeTick, Service.Remove, remote terminate() through the object's proxy, removal of an already removed id, remote terminate of a removed object, calls after removal. Oracle: ids returned by Add are unique among live objects; for every object whose removal was acknowledged (Remove returned nil / terminate replied): its OnTerminate hook ran exactly once at quiescence (0 for live objects), every call started after the acknowledgement returns an error and never reaches the object (per-token execution counter), its subscribers' channels get closed (quiescence detector); every object still live answers correctly at the end. Stream collide: the global math/rand source the service draws identifiers from is re-seeded with one seed before several Add calls, so that each draws an identifier already held: every Add returns, identifiers are unique among the live objects, every object answers and runs its call once. Stream flood: an object whose method is parked is flooded with 8-40 calls from 3-6 connections (mailbox full, routing goroutines waiting) and is terminated remotely / removed locally in the middle, then released: every call and the termination return, no call runs twice, hook once, later calls fail, the sibling answers on every connection. Stream crowd: one object with 3-24 registrations spread over 1-5 raw connections x 3 signals/properties (+ the generated proxies of a session) is removed or terminates itself: (some registrations are cancelled again, one handler id may be tried on two signals) every (connection, signal) with an acknowledged registration still in place receives the termination error, every proxy channel closes, the hook ran once, the sibling answers. Distinct non-trivial = distinct plans with at least one acknowledged removal followed by a call to the removed object.")
+	c.Note("rule", "each plan hosts a fresh Probe service and runs a PRNG sequence, then 2-8 concurrent goroutines, of: Service.Add (new object), call work(token) through a proxy, SubscribeTick, Service.Remove, remote terminate() through the object's proxy, removal of an already removed id, remote terminate of a removed object, calls after removal. Oracle: ids returned by Add are unique among live objects; for every object whose removal was acknowledged (Remove returned nil / terminate replied): its OnTerminate hook ran exactly once at quiescence (0 for live objects), every call started after the acknowledgement returns an error and never reaches the object (per-token execution counter), its subscribers' channels get closed (quiescence detector); every object still live answers correctly at the end. Stream collide: the global math/rand source the service draws identifiers from is re-seeded with one seed before several Add calls, so that each draws an identifier already held: every Add returns, identifiers are unique among the live objects, every object answers and runs its call once. Stream flood: an object whose method is parked is flooded with 8-40 calls from 3-6 connections (mailbox full, routing goroutines waiting) and is terminated remotely / removed locally in the middle, then released: every call and the termination return, no call runs twice, hook once, later calls fail, the sibling answers on every connection. Stream crowd: one object (one case in three: the service's original object, id 1) with 3-24 registrations spread over 1-5 raw connections x 3 signals/properties (+ the generated proxies of a session) is removed or terminates itself: (some registrations are cancelled again, one handler id may be tried on two signals) every (connection, signal) with an acknowledged registration still in place receives the termination error, every proxy channel closes, the hook ran once, the sibling answers. Distinct non-trivial = distinct plans with at least one acknowledged removal followed by a call to the removed object.")
 	var w *world
 	defer func() {
 		if w != nil {
@@ -105,9 +105,15 @@ func c16crowd(c *wk.Ctx, i int, rng *rand.Rand, w *world, sess bus.Session, name
 		return
 	}
 	defer ps.service.Terminate()
+	// the object that goes away: the one added later, or (one case in three) the service's original
+	// object, id 1, which then leaves its sibling behind
+	vi := 1
+	if rng.Intn(3) == 0 {
+		vi = 0
+	}
 	var target probe.ProbeProxy
 	for try := 0; ; try++ {
-		target, err = proxyFor(sess, ps, ps.objs[1])
+		target, err = proxyFor(sess, ps, ps.objs[vi])
 		if err == nil {
 			break
 		}
@@ -117,7 +123,7 @@ func c16crowd(c *wk.Ctx, i int, rng *rand.Rand, w *world, sess bus.Session, name
 		}
 		time.Sleep(time.Millisecond)
 	}
-	obj := ps.objs[1].id
+	obj := ps.objs[vi].id
 	meta := target.Proxy().MetaObject()
 	var sigs []uint32
 	for _, n := range [][2]string{{"tick", "(L)"}, {"other", "(L)"}} {
@@ -276,7 +282,7 @@ func c16crowd(c *wk.Ctx, i int, rng *rand.Rand, w *world, sess bus.Session, name
 	} else {
 		err = ps.service.Remove(obj)
 	}
-	detail := map[string]interface{}{"service": name, "connections": nConn, "registrations_attempted": total, "registrations_acknowledged": len(want), "proxy_subscriptions": nProxy, "removal": how}
+	detail := map[string]interface{}{"service": name, "connections": nConn, "registrations_attempted": total, "registrations_acknowledged": len(want), "proxy_subscriptions": nProxy, "removal": how, "removed_object_id": obj}
 	if err != nil {
 		c.Viol("crowd", i, "remove=error", how+" of a live object failed: "+err.Error(), detail)
 		return
@@ -315,10 +321,10 @@ func c16crowd(c *wk.Ctx, i int, rng *rand.Rand, w *world, sess bus.Session, name
 		c.Inconclusive("crowd", i, "watchdog")
 		return
 	}
-	if n := ps.objs[1].impl.Terminated(); n != 1 {
+	if n := ps.objs[vi].impl.Terminated(); n != 1 {
 		c.Viol("crowd", i, fmt.Sprintf("removed=terminated-%d-times", n), fmt.Sprintf("termination hook ran %d times", n), detail)
 	}
-	first, err := proxyFor(sess, ps, ps.objs[0])
+	first, err := proxyFor(sess, ps, ps.objs[1-vi])
 	if err == nil {
 		var res string
 		if res, err = first.Work(7, "sibling"); err == nil && res != svc.F(7, "sibling") {
@@ -328,7 +334,7 @@ func c16crowd(c *wk.Ctx, i int, rng *rand.Rand, w *world, sess bus.Session, name
 	if err != nil {
 		c.Viol("crowd", i, "live=unreachable", "the sibling of a removed object does not answer: "+err.Error(), detail)
 	}
-	if _, err := target.Work(8, "gone"); err == nil || ps.objs[1].impl.ExecCount(8) != 0 {
+	if _, err := target.Work(8, "gone"); err == nil || ps.objs[vi].impl.ExecCount(8) != 0 {
 		c.Viol("crowd", i, "removed=call-succeeded", "a call after the acknowledged removal succeeded or reached the object", detail)
 	}
 	c.Count("crowd_registrations_acknowledged", int64(len(want)))
